@@ -1,5 +1,15 @@
 /-
 C03 — data accessors in requested units agree with permanent conversion.
+
+Model: `Model/Access.lean` (read accessors), `Model/IsoState.lean` (permanent conversions), `Model/Units.lean`
+(unit functions), `Model/SpreadPoint.lean` (`interpLin`).  Sections (helpers sit above the theorems of their section;
+section A's theorems are used by the helpers of section B):
+  A  linearity of `c_pressure`, `c_loading`, `c_material` in the value;
+  C  branch and limit selection;
+  D  branch guessing (`split_ads_data`);
+  E  interpolation laws;
+  B  accessor = read ∘ permanent conversion, inputs in foreign units, findings S5a/S5b as witnesses.
+Everything in A, C, D, E holds over any (ordered) field; B needs characteristic zero (unit factors are non-zero).
 -/
 import PgVerif.Model.Access
 import PgVerif.Props.C01
@@ -172,7 +182,8 @@ theorem applyLimits_spec (vs : List α) (lo hi : Option α) (x : α) :
     x ∈ applyLimits vs (some (lo, hi)) ↔
       x ∈ vs ∧ (limitsActive lo hi → (∀ a, lo = some a → a ≤ x) ∧ (∀ b, hi = some b → x ≤ b)) := by
   unfold limitsActive applyLimits
-  cases lo <;> cases hi <;> simp only [] <;> split_ifs <;> simp_all <;> tauto
+  cases lo <;> cases hi <;> simp only [] <;> split_ifs <;> simp_all
+  tauto
 
 /-- desorption data are returned in reverse stored order, everything else unchanged -/
 theorem orderedForBranch_des {β : Type} (xs : List β) : orderedForBranch "des" xs = xs.reverse := by
